@@ -25,6 +25,8 @@ REPLAY = ("TraceValidate", TRACE_CFG)
 
 def signature(events, at):
     ev = json.loads(events[at - 1]) if 0 < at <= len(events) else {}
+    if ev.get("op") == "cquery":
+        return "C14|command-line-query|form=%s|%s" % (ev.get("form"), "searched-although-rejected" if ev.get("ok2") else "rejected-although-acceptable")
     if ev.get("op") == "climit":
         return "C14|command-line-limit|form=%s|n=%s" % (ev.get("form"), "neg" if ev["n"] < 0 else "0" if ev["n"] == 0 else "1..100" if ev["n"] <= 100 else ">100")
     if ev.get("op") == "limit":
